@@ -3,11 +3,15 @@
 The real TraceObserver (newTraceObserverWithWorker) is driven through scripted scenarios with a gated
 sender (harness/go/infinite_tracing/zz_verif_c16_test.go); the 15 s back-off sleep goes through a hook woven
 into a copy of the CURRENT trace_observer.go (time.Sleep( -> verifSleep(, nothing else).  The event log of
-every scenario must be a (weak) trace of the LTS of coq/TraceObs.v (TraceObs.accepts, evaluated in Coq, for
-the as-is variant or for the repaired variant), and the model-independent monitor TraceObs.c16_monitor judges
+every scenario must be a (weak) trace of the LTS of coq/TraceObs.v in its current-code variant (fixed = true:
+/repo with 924bc09, 296039d, 1697f0e; TraceObs.accepts, evaluated in Coq), and the model-independent monitor
+TraceObs.c16_monitor judges
 the observation alone: producer never blocked, no crash, queued spans and the capacity counter within
 [0, QueueSize], every span accounted for exactly once, Shutdown back within its time-out and the worker not
-left on a channel send.
+left on a channel send.  The logs are also replayed in the old-code variant (fixed = false): if that one
+accepts them and the current one does not, a repair was reverted, which the evidence says in so many words; the
+monitor then reports the old defects' signatures again (the regress_* scenarios of the fixed corpus replay them
+on every run).
 """
 import json
 import os
@@ -58,31 +62,32 @@ def epilogue(q):
 
 
 def corpus():
-    """The fixed part: always runs, in this order.  Scenarios named defect_* replay the findings of DESIGN.md
-    section 6 (and the in-flight wrap found while modelling); clean_* must pass on the as-is code."""
+    """The fixed part: always runs, in this order.  Scenarios named regress_<commit>_* replay the defects repaired
+    by that commit (DESIGN.md section 6, and the in-flight wrap found while modelling): on the current code they
+    must pass; clean_* passed before the repairs as well."""
     scs = []
     # (1) zero-count batches never consume capacity: the third into a queue of 2 blocks the producer
-    scs.append({"name": "defect_zero_count", "family": "corpus", "q": 2, "ops": [call(0), call(0), call(0)]})
-    scs.append({"name": "defect_zero_count_q1", "family": "corpus", "q": 1, "ops": [call(0), call(0)]})
+    scs.append({"name": "regress_924bc09_zero_count", "family": "corpus", "q": 2, "ops": [call(0), call(0), call(0)]})
+    scs.append({"name": "regress_924bc09_zero_count_q1", "family": "corpus", "q": 1, "ops": [call(0), call(0)]})
     # (2) count > QueueSize: emptyQueue cannot make room, the counter wraps, later batches overfill and block
-    scs.append({"name": "defect_count_exceeds_queue", "family": "corpus", "q": 2, "ops": [call(3), call(1), call(1)]})
-    scs.append({"name": "defect_count_exceeds_queue_q1", "family": "corpus", "q": 1, "ops": [call(2), call(1)]})
+    scs.append({"name": "regress_296039d_count_exceeds_queue", "family": "corpus", "q": 2, "ops": [call(3), call(1), call(1)]})
+    scs.append({"name": "regress_296039d_count_exceeds_queue_q1", "family": "corpus", "q": 1, "ops": [call(2), call(1)]})
     # (2') counts within [1, QueueSize] but the capacity is held by a batch the worker has in hand: same wrap
-    scs.append({"name": "defect_inflight_wrap_q1", "family": "corpus", "q": 1,
+    scs.append({"name": "regress_296039d_inflight_wrap_q1", "family": "corpus", "q": 1,
                 "ops": [connect(), call(1), call(1), call(1)]})
-    scs.append({"name": "defect_inflight_wrap_bound", "family": "corpus", "q": 2,
+    scs.append({"name": "regress_296039d_inflight_wrap_bound", "family": "corpus", "q": 2,
                 "ops": [connect(), call(2), call(2), call(2)]})
     # zero-count batches fill messagesSent as well: the worker ends up on `messagesSent <-` for ever
-    scs.append({"name": "defect_zero_count_worker_stuck", "family": "corpus", "q": 1,
+    scs.append({"name": "regress_924bc09_zero_count_worker_stuck", "family": "corpus", "q": 1,
                 "ops": [connect(), call(0), call(0), sendret(), sendret(), shutdown(5)]})
     # (3) Shutdown times out while the worker is still connecting; closeMessages closes the queue under it;
     #     the select then yields a nil batch (or sees the shutdown: Go picks at random, hence the repeats)
     for i in range(24):
-        scs.append({"name": "defect_close_under_worker_%d" % i, "family": "corpus", "q": 2,
+        scs.append({"name": "regress_1697f0e_close_under_worker_%d" % i, "family": "corpus", "q": 2,
                     "ops": [call(1), shutdown(3), connect()] + epilogue(2)})
     # same, worker sleeping in the back-off
     for i in range(8):
-        scs.append({"name": "defect_close_under_sleeper_%d" % i, "family": "corpus", "q": 2,
+        scs.append({"name": "regress_1697f0e_close_under_sleeper_%d" % i, "family": "corpus", "q": 2,
                     "ops": [connect("restart", True), call(1), shutdown(3), WAKE, connect()] + epilogue(2)})
     # clean: = QueueSize, dump and requeue, never connected
     scs.append({"name": "clean_exact_fit", "family": "corpus", "q": 2,
@@ -368,10 +373,8 @@ def classify(sc, o, clause):
             return "c16-close-under-worker" if any(e["k"] == "shutdown" for e in evs) else "c16-worker-panic"
         return "c16-producer-panic"
     calls = [x["c"] for x in o["offered"]]
-    if any(c > sc["q"] for c in calls):
-        return "c16-count-exceeds-queue"
-    if any(c == 0 for c in calls):
-        return "c16-zero-count-blocks"
+    probes = [e["probe"] for e in evs if e["k"] == "probe"]
+    wrapped = any(p["rem"] > sc["q"] for p in probes)      # the counter left [0, QueueSize]
     # was anything in flight (in the worker's hands or unreported) when some call was made?
     inflight, last_probe = False, None
     for e in evs:
@@ -380,8 +383,14 @@ def classify(sc, o, clause):
         elif e["k"] == "call" and last_probe is not None:
             if last_probe["wpos"] in ("send", "chansend") or last_probe["nsent"] > 0:
                 inflight = True
-    if inflight and clause in ("noblock", "bound", "shutdown"):
-        return "c16-inflight-wrap"
+    if wrapped:
+        if any(c > sc["q"] for c in calls):
+            return "c16-count-exceeds-queue"
+        if inflight and clause in ("noblock", "bound", "shutdown"):
+            return "c16-inflight-wrap"
+        return "c16-%s-in-range" % clause
+    if any(c == 0 for c in calls) and clause in ("noblock", "bound", "shutdown"):
+        return "c16-zero-count-blocks"
     return "c16-%s-in-range" % clause
 
 
@@ -413,7 +422,13 @@ def run(chk, replay=None):
             t = open(os.path.join(pkgdir, fn)).read()
             callers += [fn for m in re.finditer(r"\.closeInitiateAppShutdown\(\)", t)]
     chk.cov["closeInitiateAppShutdown_callers"] = callers
+    chk.notes.append("latent (note, not a finding): handleSupportability returns once initiateAppShutdown is closed and every "
+                     "later send on its unbuffered channels (emptyQueue / the drop path on the processor goroutine, "
+                     "supportabilityError on the worker) would block; nothing calls closeInitiateAppShutdown (callers found in "
+                     "the current sources: %d), the theorems assume app_sd_callable = false, the witness is "
+                     "C16_latent_supportability_after_app_shutdown" % len(callers))
     if callers:
+        # the assumption the theorems rest on no longer holds of the code
         chk.fail("app_shutdown_callers.json",
                  {"what": "closeInitiateAppShutdown now has a caller: the supportability goroutine can return and every "
                           "later send on its unbuffered channels blocks (emptyQueue on the processor goroutine)",
@@ -496,11 +511,15 @@ Print shutdown. Print all_ok.
         for i, (a, b) in enumerate(pairs):
             rej[s0 + i] = (int(a), int(b))
 
-    # which variant of the model does the implementation follow?
-    variant = "as-is" if not res["corr_orig"] else ("repaired" if not res["corr_fixed"] else "neither")
-    corr_bad = res["corr_orig"] if variant in ("as-is", "neither") else res["corr_fixed"]
-    if variant == "neither" and len(res["corr_fixed"]) < len(res["corr_orig"]):
-        corr_bad = res["corr_fixed"]
+    # The current code is the repaired variant: that is the model the logs must be runs of.  The old-code variant
+    # is evaluated only to say "a repair was reverted" when it is the one that fits.
+    corr_bad = res["corr_fixed"]
+    if not res["corr_fixed"]:
+        variant = "current"
+    elif not res["corr_orig"]:
+        variant = "old (before 924bc09/296039d/1697f0e)"
+    else:
+        variant = "neither"
     chk.cov["model_variant_followed"] = variant
 
     # ---- coverage
@@ -529,7 +548,8 @@ Print shutdown. Print all_ok.
     chk.sample({"scenario": scs[0]["name"], "events": [e["k"] for e in obs[0]["events"]]})
     chk.cov["rule"] = ("scenarios = op scripts (call n / shutdown ms / connect r / sendret r / wake / resperr / setclone) "
                        "against the real newTraceObserverWithWorker with a gated sender and a woven back-off sleep; a fixed "
-                       "corpus (defects of DESIGN.md section 6 plus the clean boundary cases) always runs first, then families "
+                       "corpus (the repaired defects of DESIGN.md section 6 as regress_<commit>_* plus the clean boundary cases) "
+                       "always runs first, then families "
                        "clean_unconnected, clean_lockstep, clean_busy (counts <= QueueSize/2), inflight, edge (sizes 0, "
                        "= QueueSize, > QueueSize, 2^63, 2^64-1; Shutdown with 1-10 ms at a random point; every gate released "
                        "afterwards).  Each applied op is followed by a probe (counter, queue peeked, len(messagesSent), "
@@ -537,7 +557,8 @@ Print shutdown. Print all_ok.
                        "(TraceObs.accepts, tau steps interleaved freely).  Non-trivial: at least two QueueBatch calls and "
                        "three applied ops; distinct by the applied op list.")
     chk.cov["input_distribution"] = dist
-    chk.cov["disagreements"] = {"accepts_as_is": len(res["corr_orig"]), "accepts_repaired": len(res["corr_fixed"]),
+    chk.cov["disagreements"] = {"accepts_current_code_model": len(res["corr_fixed"]),
+                                "accepts_old_code_model": len(res["corr_orig"]),
                                 "out_of_fuel": len(res["fuel"])}
     chk.cov["monitor_failures"] = {k: len(res[k]) for k in CLAUSES}
     chk.cov["unsettled_waits"] = sum(o.get("unsettled", 0) for o in obs)
@@ -568,12 +589,14 @@ Print shutdown. Print all_ok.
         det = []
         for i in (corr_clean_first(corr_bad, res) )[:3]:
             a, b = rej.get(i, (0, 0))
-            k = (a if variant != "repaired" else b) - 1
+            k = b - 1
             det.append({"scenario": scs[i], "refused_event_index": k,
                         "events_around": obs[i]["events"][max(0, k - 5):k + 2]})
-        broken.append("correspondence: neither variant of the LTS has a run matching the observed log of scenarios %s "
-                      "(as-is model refuses %d, repaired model refuses %d)\n%s"
-                      % (corr_bad[:10], len(res["corr_orig"]), len(res["corr_fixed"]), json.dumps(det, indent=1)[:6000]))
+        broken.append("correspondence: the LTS of the current code has no run matching the observed log of scenarios %s "
+                      "(current-code model refuses %d logs, old-code model refuses %d%s)\n%s"
+                      % (corr_bad[:10], len(res["corr_fixed"]), len(res["corr_orig"]),
+                         "; the implementation behaves like the code BEFORE the repairs 924bc09/296039d/1697f0e"
+                         if variant.startswith("old") else "", json.dumps(det, indent=1)[:6000]))
     if chk.cov["unsettled_waits"]:
         chk.notes.append("%d settle waits expired (2 s); the log order may be unreliable there" % chk.cov["unsettled_waits"])
     # a scenario the monitor is happy with but the LTS cannot follow is a broken tie whatever else was found
